@@ -3,6 +3,7 @@
 mod rng;
 mod sx;
 mod c31;
+mod par;
 mod c32;
 mod alpha;
 mod c03;
@@ -59,6 +60,7 @@ fn main() {
     let a = parse_args();
     match a.cmd.as_str() {
         "c31" => c31::run(&a),
+        "par" => par::run(&a),
         "c32" => c32::run(&a),
         "c06" => c06::run_ff(&a),
         "c05" => c06::run_dec(&a),
